@@ -18,6 +18,7 @@
 package responseadaptor
 
 import (
+	"fmt"
 	"io"
 	"strconv"
 	"strings"
@@ -92,6 +93,24 @@ func (ra *ResponseAdaptor) Kind() *filters.Kind {
 // Spec returns the spec used by the ResponseAdaptor
 func (ra *ResponseAdaptor) Spec() filters.Spec {
 	return ra.spec
+}
+
+// Validate verifies that at most one of compress and decompress is set, that the
+// compression type is supported, and that body and decompress are not both set.
+func (spec *Spec) Validate() error {
+	if spec.Decompress != "" && spec.Decompress != "gzip" {
+		return fmt.Errorf("ResponseAdaptor only support decompress type of gzip")
+	}
+	if spec.Compress != "" && spec.Compress != "gzip" {
+		return fmt.Errorf("ResponseAdaptor only support compress type of gzip")
+	}
+	if spec.Compress != "" && spec.Decompress != "" {
+		return fmt.Errorf("ResponseAdaptor can only do compress or decompress, not both")
+	}
+	if spec.Body != "" && spec.Decompress != "" {
+		return fmt.Errorf("no need to decompress when body is specified in ResponseAdaptor spec")
+	}
+	return nil
 }
 
 // Init initializes ResponseAdaptor.
